@@ -57,7 +57,7 @@ class Ctx:
             if a2 != b2:
                 dis += 1
                 if len(self.tie_failures) < 20:
-                    self.tie_failures.append({"stream": name, "case": c[:4000], "implementation": a[:2000], "model": b[:2000]})
+                    self.tie_failures.append({"stream": name, "case": c, "implementation": a[:2000], "model": b[:2000]})
             if nontrivial is None or nontrivial(c, a):
                 self.distinct.add(hash(c))
         st = self.streams.setdefault(name, {"cases": 0, "disagreements": 0})
